@@ -446,7 +446,8 @@ def pred_is_none(x):
 
 
 def pred_tuple_or_none(x):
-    return type(x) is tuple or x is None
+    # answers with ints, not bools: the engine converts the answer with bool(), Python wrappers by truthiness
+    return 1 if (type(x) is tuple or x is None) else 0
 
 
 def pred_custom(x):
